@@ -138,6 +138,25 @@ def step (s : St) (toks : List String) : St × String :=
   | ["READ"] => (s, bytesToHex (readAll s.st.dir))
   | ["PARTS"] => (s, ",".intercalate ((parts s.st.dir).map (fun p => toString p.length)))
   | ["LINK"] => (s, s.linkText)
+  | ["EXIST", sel, custom] =>
+    match optText custom with
+    | some custom =>
+      -- structural specification: the existing files of the family the selector asks for
+      let pick (e : FName × File) : Bool :=
+        match e.1.ifx with
+        | some i =>
+          (sel.contains 'p' && i.rotated && !e.1.gz) ||
+          (sel.contains 'c' && i.rotated && e.1.gz) ||
+          (sel.contains 'r' && i == .cur && !e.1.gz && s.spec.curToken == "rCURRENT".toList) ||
+          (match custom with | some c => i == .cur && !e.1.gz && s.spec.curToken == c | none => false)
+        | none => false
+      let res : List (List Char) :=
+        match s.st.cfg.rot with
+        | some _ => (s.st.dir.filter pick).map (fun e => render s.spec e.1)
+        | none => [render s.spec ⟨none, false⟩]
+      let sorted := sortText res
+      (s, if sorted.isEmpty then "-" else " ".intercalate (sorted.map textToHex))
+    | none => (s, "bad-op")
   | ["ERRS"] =>
     let new := s.st.errs.drop s.errSeen
     ({ s with errSeen := s.st.errs.length },
